@@ -526,3 +526,73 @@ Proof.
   - intros [d [c [kids [Hn ->]]]]. destruct (node_in_level _ _ _ _ _ Hn) as [n [Hlt Hin]].
     exists n. split; [apply in_seq; lia|exact Hin].
 Qed.
+
+(* ------------------------------------------------------------------------------------------------ *)
+(** * audit follow-up: the opposite table, canonical sets *)
+
+(* the link by which a packet enters is (d + 3) mod 6 for a hop in direction d (the generated
+   Routes.opposite table says nothing else); a root has none; a core route has no opposite *)
+Lemma in_direction_link : forall d, 0 <= d < 6 -> in_direction d = Some ((d + 3) mod 6).
+Proof.
+  intros d H. assert (E : d = 0 \/ d = 1 \/ d = 2 \/ d = 3 \/ d = 4 \/ d = 5) by lia.
+  destruct E as [->|[->|[->|[->|[->| ->]]]]]; reflexivity.
+Qed.
+
+Lemma in_direction_root : in_direction none_dir = Some none_dir.
+Proof. reflexivity. Qed.
+
+Lemma in_direction_core : forall d, 6 <= d < 24 -> in_direction d = None.
+Proof.
+  intros d H.
+  assert (E : d = 6 \/ d = 7 \/ d = 8 \/ d = 9 \/ d = 10 \/ d = 11 \/ d = 12 \/ d = 13 \/ d = 14 \/ d = 15 \/
+              d = 16 \/ d = 17 \/ d = 18 \/ d = 19 \/ d = 20 \/ d = 21 \/ d = 22 \/ d = 23) by lia.
+  repeat (destruct E as [->|E]; [reflexivity|]). subst. reflexivity.
+Qed.
+
+From Coq Require Import Sorted.
+
+Lemma set_add_sorted : forall x s, StronglySorted Z.lt s -> StronglySorted Z.lt (set_add x s).
+Proof.
+  intros x s. induction s as [|y s IH]; intros H; cbn [set_add].
+  - constructor; constructor.
+  - inversion H as [|? ? Hs Hy]; subst.
+    destruct (Z.ltb_spec x y) as [Hlt|Hge].
+    + constructor; [exact H|]. constructor; [exact Hlt|].
+      rewrite Forall_forall in *. intros z Hz. specialize (Hy z Hz). lia.
+    + destruct (Z.eqb_spec x y) as [->|Hne]; [exact H|].
+      constructor; [apply IH; exact Hs|].
+      rewrite Forall_forall in *. intros z Hz. apply set_add_In in Hz. destruct Hz as [->|Hz]; [lia|apply Hy; exact Hz].
+Qed.
+
+Lemma set_of_list_sorted : forall l, StronglySorted Z.lt (set_of_list l).
+Proof. induction l as [|x l IH]; [constructor|]. cbn [set_of_list fold_right]. apply set_add_sorted. exact IH. Qed.
+
+(* two strictly increasing lists with the same members are the same list *)
+Lemma sorted_ext : forall a b,
+  StronglySorted Z.lt a -> StronglySorted Z.lt b -> (forall x, In x a <-> In x b) -> a = b.
+Proof.
+  induction a as [|x a IH]; intros b Ha Hb H.
+  - destruct b as [|y b]; [reflexivity|]. exfalso. apply (proj2 (H y)). left. reflexivity.
+  - destruct b as [|y b]; [exfalso; apply (proj1 (H x)); left; reflexivity|].
+    inversion Ha as [|? ? Ha' Hxa]; subst. inversion Hb as [|? ? Hb' Hyb]; subst.
+    rewrite Forall_forall in Hxa, Hyb.
+    assert (x = y).
+    { destruct (proj1 (H x) (or_introl eq_refl)) as [E|Hin]; [symmetry; exact E|].
+      destruct (proj2 (H y) (or_introl eq_refl)) as [E|Hin2]; [exact E|].
+      specialize (Hyb x Hin). specialize (Hxa y Hin2). lia. }
+    subst y. f_equal. apply IH; try assumption.
+    intros z. split; intros Hz.
+    + destruct (proj1 (H z) (or_intror Hz)) as [E|Hin]; [|exact Hin]. subst z. specialize (Hxa x Hz). lia.
+    + destruct (proj2 (H z) (or_intror Hz)) as [E|Hin]; [|exact Hin]. subst z. specialize (Hyb x Hz). lia.
+Qed.
+
+(* out sets are canonical: comparing them as lists (which is what [conflict] and [tables_spec] do, and what
+   the model's zlist_eqb does for Python's set comparison) is comparing them as sets *)
+Theorem out_set_canonical : forall k1 k2,
+  StronglySorted Z.lt (out_set k1)
+  /\ (out_set k1 = out_set k2 <-> forall r, In r (out_set k1) <-> In r (out_set k2)).
+Proof.
+  intros k1 k2. split; [apply set_of_list_sorted|]. split.
+  - intros ->. reflexivity.
+  - intros H. apply sorted_ext; [apply set_of_list_sorted|apply set_of_list_sorted|exact H].
+Qed.
